@@ -205,7 +205,6 @@ func observeRequest(c fiber.Ctx) string {
 		gen.Hex(string(req.Header.Referer())), j(sortedPairs(ck)), gen.Hex(ct), body, j(ff), j(files))
 }
 
-
 // ---- pooled objects ------------------------------------------------------------------------------
 
 // pollute plays an earlier, unrelated user of the pooled Request / Response objects: a request bound to
@@ -286,14 +285,10 @@ func applyOps(es []entry, add, set func(k, v string)) {
 	}
 }
 
-// sendAsm builds a fresh client + request from the configuration and sends it once.
-func sendAsm(a *asmCase) (obs string, timedOut bool, pool bool) {
-	pool, sameObj := pollute()
-	if sameObj {
-		poolSame++
-	}
-	poolRounds++
-	cl := client.New().SetDial(dialer)
+// newAsmClient builds the client of a configuration (one per case: every request of the case's history goes through it).
+func newAsmClient(a *asmCase) (cl *client.Client, cleanup func()) {
+	cleanup = func() {}
+	cl = client.New().SetDial(dialer)
 	cl.SetBaseURL(a.base)
 	applyOps(a.cH, func(k, v string) { cl.AddHeader(k, v) }, func(k, v string) { cl.SetHeader(k, v) })
 	applyOps(a.cQ, func(k, v string) { cl.AddParam(k, v) }, func(k, v string) { cl.SetParam(k, v) })
@@ -314,12 +309,135 @@ func sendAsm(a *asmCase) (obs string, timedOut bool, pool bool) {
 	}
 	if len(a.jarC) > 0 {
 		jar := client.AcquireCookieJar()
-		defer client.ReleaseCookieJar(jar)
+		cleanup = func() { client.ReleaseCookieJar(jar) }
 		host := hostOfURL(a.base, a.url)
 		for _, e := range a.jarC {
 			jar.SetKeyValue(host, e[0], e[1])
 		}
 		cl.SetCookieJar(jar)
+	}
+	return cl, cleanup
+}
+
+// placeholderNames: every `:name` of the template (name = maximal run of letters, digits, '_').
+func placeholderNames(t string) []string {
+	var out []string
+	for i := 0; i < len(t); i++ {
+		if t[i] != ':' {
+			continue
+		}
+		j := i + 1
+		for j < len(t) && (t[j] == '_' || t[j] >= '0' && t[j] <= '9' || t[j] >= 'a' && t[j] <= 'z' || t[j] >= 'A' && t[j] <= 'Z') {
+			j++
+		}
+		if j > i+1 {
+			out = append(out, t[i+1:j])
+			// every non-empty prefix is a possible key as well (":id" inside ":idx")
+			for k := i + 2; k < j; k++ {
+				out = append(out, t[i+1:k])
+			}
+		}
+	}
+	return out
+}
+
+// historyKeys: the keys the requests of a case's history use on each component (the case's own, the
+// template's placeholders, the precursor's fixed ones).
+type historyKeys struct{ path, header, param, cookie []string }
+
+func keysOf(a *asmCase) historyKeys {
+	var k historyKeys
+	k.path = append(placeholderNames(a.base+a.url), "id", "missing", "pre")
+	for _, e := range a.cP {
+		k.path = append(k.path, e[0])
+	}
+	for _, e := range a.rP {
+		k.path = append(k.path, e[0])
+	}
+	k.header = []string{"X-Pre"}
+	for _, e := range a.cH {
+		k.header = append(k.header, e[1])
+	}
+	for _, e := range a.rH {
+		k.header = append(k.header, e[1])
+	}
+	k.param = []string{"pre"}
+	for _, e := range a.cQ {
+		k.param = append(k.param, e[1])
+	}
+	for _, e := range a.rQ {
+		k.param = append(k.param, e[1])
+	}
+	k.cookie = []string{"prec"}
+	for _, es := range [][]entry{a.cC, a.rC, a.jarC} {
+		for _, e := range es {
+			k.cookie = append(k.cookie, e[0])
+		}
+	}
+	return k
+}
+
+// clientConfig: what the client-level configuration holds under every key of the history (the client has getters per
+// key only) plus the base URL. Taken before the first and after the last request of a case: no request may change it.
+func clientConfig(cl *client.Client, k historyKeys) string {
+	var b strings.Builder
+	for _, x := range k.path {
+		fmt.Fprintf(&b, "P %q=%q\n", x, cl.PathParam(x))
+	}
+	for _, x := range k.header {
+		fmt.Fprintf(&b, "H %q=%q\n", x, cl.Header(x))
+	}
+	for _, x := range k.param {
+		fmt.Fprintf(&b, "Q %q=%q\n", x, cl.Param(x))
+	}
+	for _, x := range k.cookie {
+		fmt.Fprintf(&b, "C %q=%q\n", x, cl.Cookie(x))
+	}
+	fmt.Fprintf(&b, "B %q\n", cl.BaseURL())
+	return b.String()
+}
+
+// precursor: an EARLIER request of the same client (a pooled Request object), which sets every component at request
+// level - among them every path parameter the template names and every key the case uses on either level - and is
+// sent to the case's own URL. The requests after it must be assembled from the client's configuration and their own
+// only: what an earlier request set at request level belongs to that request.
+func precursor(cl *client.Client, a *asmCase, k historyKeys, round int) {
+	r := client.AcquireRequest().SetClient(cl)
+	tag := "pre" + strconv.Itoa(round)
+	for _, x := range k.path {
+		r.SetPathParam(x, "PRE"+x)
+	}
+	for _, x := range k.header {
+		r.AddHeader(x, tag)
+	}
+	for _, x := range k.param {
+		r.AddParam(x, tag)
+	}
+	for _, x := range k.cookie {
+		r.SetCookie(x, tag)
+	}
+	r.SetUserAgent("pre-agent").SetReferer("http://pre/").SetTimeout(5 * time.Second)
+	saveCT := ctExpected
+	resp, err := r.Get(a.url)
+	ctExpected = saveCT
+	if err != nil {
+		client.ReleaseRequest(r)
+	} else {
+		resp.Close()
+	}
+}
+
+// sendAsm sends the case's request once through the case's client: first a pollution round on the pooled objects
+// (another client), then `pre` earlier requests on THIS client, then the request itself.
+func sendAsm(a *asmCase, cl *client.Client, k historyKeys, pre int) (obs string, timedOut bool, pool bool) {
+	pool, sameObj := pollute()
+	if sameObj {
+		poolSame++
+	}
+	poolRounds++
+	for i := 0; i < pre; i++ {
+		precursor(cl, a, k, i)
+		preRounds++
 	}
 	req := client.AcquireRequest().SetClient(cl)
 	applyOps(a.rH, func(k, v string) { req.AddHeader(k, v) }, func(k, v string) { req.SetHeader(k, v) })
@@ -383,7 +501,7 @@ func sendAsm(a *asmCase) (obs string, timedOut bool, pool bool) {
 	return seen.text + ";po=" + sentPath, false, pool
 }
 
-var poolSame, poolRounds int
+var poolSame, poolRounds, preRounds int
 
 func hostOfURL(base, url string) string {
 	u := url
@@ -404,14 +522,20 @@ func runAsm(a *asmCase) string {
 	if a.delay > 0 {
 		n = 1
 	}
-	first, to, pool := sendAsm(a)
+	cl, cleanup := newAsmClient(a)
+	defer cleanup()
+	k := keysOf(a)
+	before := clientConfig(cl, k)
+	// the history: 1-3 earlier requests, the request, then (3 times) one earlier request and the request again
+	first, to, pool := sendAsm(a, cl, k, 1+(len(a.url)+len(a.rP))%3)
 	det := true
 	for i := 1; i < n; i++ {
-		o, t, p := sendAsm(a)
+		o, t, p := sendAsm(a, cl, k, 1)
 		if o != first || t != to {
 			det = false
 		}
 		pool = pool && p
 	}
-	return first + ";pool=" + gen.B(pool) + ";det=" + gen.B(det)
+	ccfg := clientConfig(cl, k) == before
+	return first + ";ccfg=" + gen.B(ccfg) + ";pool=" + gen.B(pool) + ";det=" + gen.B(det)
 }
